@@ -564,6 +564,17 @@ class C05Check(PoolCheckBase):
                 op["sw_nan"] = g.chance(0.3)
             if "utility_weight" in ps and g.chance(0.4):
                 op["uw"] = [round(g.uniform(0.1, 2.0), 3) for _ in range(n)]
+            # strategy-specific optional arguments (caller-owned arrays among them)
+            if "X_eval" in ps and g.chance(0.3):
+                op["x_eval"] = sorted(g.sample(range(n), g.randint(1, n)))
+                if "sample_weight_eval" in ps and g.chance(0.5):
+                    op["sw_eval"] = True
+            if "sample_weight_candidates" in ps and "sw" in op and g.chance(0.5):
+                op["sw_cand"] = True
+            if "ignore_partial_fit" in ps and g.chance(0.3):
+                op["ignore_partial_fit"] = g.chance(0.5)
+            if "update" in ps and g.chance(0.3):
+                op["update"] = True
             r = g.random()
             if r < 0.2:
                 op["cand"] = "idx"
@@ -613,7 +624,9 @@ class C05Check(PoolCheckBase):
         aborted = False
         raised = ok_ops = 0
         for t, op in enumerate(sc["ops"]):
+            swapped_now = False
             if sc.get("swap_data") and t == len(sc["ops"]) // 2 and t > 0:
+                swapped_now = True
                 X = np.array(sc["X2"], dtype=float)
                 if w.entry["flags"].get("kernel_X"):
                     X = w.kernel(X)
@@ -641,6 +654,20 @@ class C05Check(PoolCheckBase):
             if isinstance(op.get("uw"), list) and "utility_weight" in w.params:
                 # documented length: n_samples, or n_candidates for feature-row candidates
                 kw["utility_weight"] = np.resize(np.array(op["uw"], dtype=float), len(unl) if op.get("cand") == "rows" else n)
+            if op.get("x_eval") and "X_eval" in w.params:
+                ev = np.array([i for i in op["x_eval"] if i < n], dtype=int)
+                if len(ev):
+                    kw["X_eval"] = X[ev].copy()
+                    if op.get("sw_eval") and "sample_weight" in kw:
+                        kw["sample_weight_eval"] = np.resize(np.array(op["sw"], dtype=float)[::-1], len(ev)).copy()
+            if op.get("sw_cand") and "sample_weight" in kw and "sample_weight_candidates" in w.params and op.get("cand") == "rows":
+                # (documented: only together with feature-row candidates)
+                n_c = len(kw["candidates"])
+                kw["sample_weight_candidates"] = np.resize(np.array(op["sw"], dtype=float), n_c).copy()
+            if "ignore_partial_fit" in op and "ignore_partial_fit" in w.params:
+                kw["ignore_partial_fit"] = bool(op["ignore_partial_fit"])
+            if (op.get("update") or swapped_now) and "update" in w.params:
+                kw["update"] = True  # (documented: required after the pool changed)
             if kw:
                 ctx.fault("optional_args")
             prefit = bool(op.get("prefit")) and w.arg and w.fitflag
